@@ -24,7 +24,12 @@ RULE = ('cases = (gate program | matrix input | model configuration, parameter p
         'and fixed gates, random Hermitian observable and initial state; random PSD inputs (full rank, degenerate, '
         'rank deficient, batched, real/complex, d=2..5); Knill-Laflamme operator lists; variational models. A case is '
         'non-trivial when it has at least one differentiable parameter and the delivered gradient is not identically zero '
-        '(max|g| > 1e-8); distinct by digest of (kind, program/configuration, parameter point)')
+        '(max|g| > 1e-8); distinct by digest of (kind, program/configuration, parameter point). Histories: one wrapper / tensor '
+        'object differentiated repeatedly with in-place updates in between (fresh_gate_parameter, set_args, setP, copy_ into the '
+        'input tensor, editing the previous result), one cotangent tensor re-used for two backward passes, losses built from '
+        'out.sum()/mean() (stride-0 cotangent); the same configurations in three call orders inside one process (mixed-rank batch, '
+        'full-rank batch, un-batched; qubit counts 4,1,3,2) with one repeated at the end; transposed / strided / conjugate-view / '
+        'permuted-batch / float32 / complex64 / real-dtype inputs judged against the reference of the VALUES')
 EXHAUSTIVE = {'quick': False, 'thorough': False}
 EXHAUSTIVE_DOMAINS = {'quick': [], 'thorough': []}
 ASSUMPTIONS = [
@@ -36,6 +41,11 @@ ASSUMPTIONS = [
     'circuit gates are unitary (the reverse sweep un-applies gates); non-unitary "unitary" gates are inadmissible and not generated',
     'reference gate conventions (rx, ry, rz, u3, rzz; qubit 0 most significant) are checked against the forward value before '
     'the autograd oracle is used',
+    'arguments, saved tensors and grad_output are snapshotted at call time; every backward postcondition is judged against the '
+    'snapshot, and any in-place modification is a violation of its own (<fn>/mutates-...)',
+    'single-precision inputs: tolerance 1e3*eps(float32)*kappa, decision threshold 1e-2, no finite differences',
+    'a numpy (non-tensor) initial state is accepted by the circuit forward but cannot be differentiated (torch rejects the state '
+    'gradient returned for a non-tensor input); recorded as inconclusive, not judged',
 ]
 TECHNIQUE = ('runtime monitoring: postcondition on the closure returned by optimize.hf_model_wrapper (finite differences of its own '
              'forward value), postconditions on the backward of every custom autograd Function (vector-Jacobian product of an '
@@ -55,7 +65,16 @@ P_CLOSURE = 'hf_model_wrapper.closure'
 DECIDING = [P_CLOSURE, '_CircuitFunction.backward', '_KnillLaflammeInnerProductTorchOp.backward', 'PSDMatrixSqrtm.backward',
             '_PSDMatrixSqrtmRepeat.backward', 'circuit/grad-vs-fd', 'circuit/grad-vs-autograd', 'kl/grad-vs-fd',
             'kl/grad-vs-autograd', 'sqrtm/grad-vs-fd', 'sqrtm/grad-vs-autograd', 'logm/grad-vs-fd', 'logm/grad-vs-autograd',
-            'entropy/grad-vs-fd', 'varqec/grad-vs-autograd', 'model/grad-vs-fd', 'optimizer/grad-vs-fd']
+            'entropy/grad-vs-fd', 'varqec/grad-vs-autograd', 'model/grad-vs-fd', 'optimizer/grad-vs-fd',
+            # histories on one object, call order, argument mutation, dtype / memory layout
+            '_CircuitFunction.backward/cotangent-unmodified', '_CircuitFunction.forward/arguments-unmodified',
+            '_KnillLaflammeInnerProductTorchOp.backward/cotangent-unmodified', 'PSDMatrixSqrtm.backward/cotangent-unmodified',
+            '_PSDMatrixSqrtmRepeat.backward/cotangent-unmodified', 'PSDMatrixSqrtm.forward/arguments-unmodified',
+            'apply_gate_grad/arguments-unmodified', 'apply_control_n_gate_grad/arguments-unmodified',
+            'history/circuit/cotangent-reuse', 'history/circuit/expanded-cotangent', 'history/circuit/updates',
+            'history/kl/cotangent-reuse', 'history/kl/updates', 'history/sqrtm/updates', 'history/logm/updates',
+            'history/sqrtm/expanded-cotangent', 'history/logm/expanded-cotangent', 'layout/sqrtm', 'layout/logm', 'dtype/sqrtm', 'dtype/logm',
+            'order/sqrtm', 'order/logm', 'order/circuit']
 
 EPS = np.finfo(np.float64).eps
 STEPS = (1e-5, 1e-6)
@@ -67,7 +86,8 @@ def shards(tier, seed):
         ret += [{'name': 'varqec', 'kind': 'varqec', 'n': 16}, {'name': 'kl', 'kind': 'kl', 'n': 40},
                 {'name': 'sqrtm', 'kind': 'sqrtm', 'n': 60}, {'name': 'logm', 'kind': 'logm', 'n': 40},
                 {'name': 'entropy', 'kind': 'entropy', 'n': 24}, {'name': 'models', 'kind': 'models', 'n': 2},
-                {'name': 'realistic-0', 'kind': 'realistic', 'part': 0}, {'name': 'realistic-1', 'kind': 'realistic', 'part': 1}]
+                {'name': 'realistic-0', 'kind': 'realistic', 'part': 0}, {'name': 'realistic-1', 'kind': 'realistic', 'part': 1},
+                {'name': 'history-circuit', 'kind': 'history', 'what': 'circuit', 'n': 16}, {'name': 'history-matrix', 'kind': 'history', 'what': 'matrix', 'n': 12}]
     else:
         ret = [{'name': f'circuit-{i}', 'kind': 'circuit', 'n': 300} for i in range(14)]
         ret += [{'name': f'varqec-{i}', 'kind': 'varqec', 'n': 80} for i in range(3)]
@@ -78,6 +98,8 @@ def shards(tier, seed):
         ret += [{'name': f'models-{i}', 'kind': 'models', 'n': 6, 'part': i} for i in range(3)]
         ret += [{'name': f'realistic-{i}', 'kind': 'realistic', 'part': i, 'rounds': 4} for i in range(4)]
         ret += [{'name': 'repo-tests', 'kind': 'repo-tests'}]
+        ret += [{'name': f'history-circuit-{i}', 'kind': 'history', 'what': 'circuit', 'n': 120} for i in range(3)]
+        ret += [{'name': f'history-matrix-{i}', 'kind': 'history', 'what': 'matrix', 'n': 100} for i in range(2)]
     return ret
 
 
@@ -95,6 +117,34 @@ def _worst(ctx, table, point, value):
 def _count(ctx, table, key, n=1):
     d = ctx.extra.setdefault(table, {})
     d[key] = d.get(key, 0) + n
+
+
+def _snap(x):
+    """value snapshot of a tensor / array argument at call time (materialises expanded and non-contiguous views)."""
+    if isinstance(x, torch.Tensor):
+        return x.detach().clone(memory_format=torch.contiguous_format)
+    if isinstance(x, np.ndarray):
+        return np.array(x, copy=True)
+    return None
+
+
+def _same(x, snap):
+    """current contents of x equal its snapshot (NaN == NaN)."""
+    if snap is None:
+        return True
+    if isinstance(x, torch.Tensor):
+        a, b = x.detach(), snap
+        return a.shape == b.shape and a.dtype == b.dtype and bool(torch.equal(torch.nan_to_num(a, nan=12345.0), torch.nan_to_num(b, nan=12345.0)))
+    a = np.asarray(x)
+    return a.shape == snap.shape and bool(np.array_equal(a, snap, equal_nan=a.dtype.kind in 'fc'))
+
+
+def _check_unmodified(ctx, key, what, items, point):
+    """items: list of (label, object, snapshot). ONE monitor-condition evaluation: nothing was modified in place."""
+    bad = [lab for lab, x, sn in items if not _same(x, sn)]
+    ctx.check(not bad, key, what, {'modified': bad, 'before': {lab: sn for lab, x, sn in items if lab in bad},
+                                   'after': {lab: x for lab, x, sn in items if lab in bad}}, point=point)
+    return not bad
 
 
 def _nondiff_count(ctx):
@@ -292,23 +342,44 @@ def install(ctx, numqi):
     # ------------------------------------------------------------------ (b1) circuit reverse sweep
     CF = numqi.sim._torch_utils._CircuitFunction
 
-    def post_cf_forward(c):
-        if c.exc is None:
-            q0 = c.args[-2]
-            c.args[0]._vmon_q0 = np.array(_np(q0), dtype=np.complex128, copy=True)
+    def pre_cf_forward(c):
+        gates, q0 = c.args[1:-2], c.args[-2]
+        return {'gates': [_snap(g) for g in gates], 'q0': _snap(q0)}
 
-    ctx.attach(CF, 'forward', post=post_cf_forward, point='_CircuitFunction.forward')
+    def post_cf_forward(c):
+        if c.exc is not None or c.snap is None:
+            return
+        gates, q0 = c.args[1:-2], c.args[-2]
+        c.args[0]._vmon_q0 = np.array(_np(c.snap['q0']), dtype=np.complex128, copy=True)  # the state as it was at call time
+        _check_unmodified(ctx, 'circuit/forward/mutates-argument', '_CircuitFunction.forward modified a gate tensor or the input state in place',
+                          [(f'gate{i}', g, sn) for i, (g, sn) in enumerate(zip(gates, c.snap['gates']))] + [('q0', q0, c.snap['q0'])],
+                          '_CircuitFunction.forward/arguments-unmodified')
+
+    ctx.attach(CF, 'forward', pre=pre_cf_forward, post=post_cf_forward, point='_CircuitFunction.forward')
+
+    def pre_cf_backward(c):
+        fctx, gout = c.args[0], c.args[1]
+        return {'gout': _snap(gout), 'saved': [_snap(t) for t in fctx.saved_tensors],
+                'gates': {k: np.array(v, copy=True) for k, v in fctx._numqi_data['gate_np_dict'].items()}}
 
     def post_cf_backward(c):
-        if c.exc is not None or not sampled('cf'):
+        if c.exc is not None or c.snap is None:
+            return
+        fctx = c.args[0]
+        _check_unmodified(ctx, 'circuit/backward/mutates-cotangent-or-saved-tensors',
+                          '_CircuitFunction.backward modified grad_output, a saved tensor or a gate matrix in place',
+                          [('grad_output', c.args[1], c.snap['gout'])] + [(f'saved{i}', t, sn) for i, (t, sn) in enumerate(zip(fctx.saved_tensors, c.snap['saved']))]
+                          + [(f'gate_np_dict[{k}]', fctx._numqi_data['gate_np_dict'][k], sn) for k, sn in c.snap['gates'].items()],
+                          '_CircuitFunction.backward/cotangent-unmodified')
+        if not sampled('cf'):
             return
         with torch.enable_grad():  # backward runs with grad mode off; the reference needs autograd
             _post_cf_backward(c)
 
     def _post_cf_backward(c):
-        fctx, gout = c.args[0], c.args[1]
+        fctx, gout = c.args[0], c.snap['gout']  # judged against the cotangent / gate matrices as they were at call time
         data = fctx._numqi_data
-        info, gdict = data['ind_gate_to_info'], data['gate_np_dict']
+        info, gdict = data['ind_gate_to_info'], c.snap['gates']
         q0 = getattr(fctx, '_vmon_q0', None)
         names = info[-1]
         nops = max(info.keys()) + 1
@@ -343,7 +414,7 @@ def install(ctx, numqi):
                 mat = torch.tensor(np.asarray(x['array']), dtype=R.CD)
             ops.append((mat, tgt, ctrl))
         out = R.run_ops(n, ops, q0t)
-        saved = fctx.saved_tensors[0].detach()
+        saved = c.snap['saved'][0]
         if saved.shape != out.shape or float((saved - out.detach()).abs().max()) > 1e-9 * (1 + float(out.detach().abs().max())):
             ctx.inconclusive('circuit-backward/reference-forward-mismatch')
             return
@@ -384,20 +455,47 @@ def install(ctx, numqi):
             ctx.check(False, 'circuit/backward/state-grad-shape', 'state gradient has the wrong shape/type', {'type': repr(type(got))})
         _worst(ctx, 'worst_backward_vs_reference_vjp', '_CircuitFunction', worst / scale)
 
-    ctx.attach(CF, 'backward', post=post_cf_backward, point='_CircuitFunction.backward')
+    ctx.attach(CF, 'backward', pre=pre_cf_backward, post=post_cf_backward, point='_CircuitFunction.backward')
 
     # ------------------------------------------------------------------ (b2) Knill-Laflamme inner product
     KL = numqi.qec._internal._KnillLaflammeInnerProductTorchOp
 
+    def _kl_ops(op_list):
+        return [(f'op[{a}][{b}]', m) for a, seq in enumerate(op_list) for b, (_, m) in enumerate(seq) if isinstance(m, (np.ndarray, torch.Tensor))]
+
+    def pre_kl_forward(c):
+        return {'q0': _snap(c.args[1]), 'ops': [_snap(m) for _, m in _kl_ops(c.args[2])]}
+
+    def post_kl_forward(c):
+        if c.exc is None and c.snap is not None:
+            _check_unmodified(ctx, 'kl/forward/mutates-argument', 'Knill-Laflamme forward modified the code words or an error operator in place',
+                              [('q0', c.args[1], c.snap['q0'])] + [(lab, m, sn) for (lab, m), sn in zip(_kl_ops(c.args[2]), c.snap['ops'])],
+                              '_KnillLaflammeInnerProductTorchOp.forward/arguments-unmodified')
+
+    ctx.attach(KL, 'forward', pre=pre_kl_forward, post=post_kl_forward, point='_KnillLaflammeInnerProductTorchOp.forward')
+
+    def pre_kl_backward(c):
+        fctx = c.args[0]
+        return {'gout': _snap(c.args[1]), 'saved': [_snap(t) for t in fctx.saved_tensors],
+                'ops': [_snap(m) for _, m in _kl_ops(fctx._pyqet_data['op_list'])]}
+
     def post_kl_backward(c):
-        if c.exc is not None or not sampled('kl'):
+        if c.exc is not None or c.snap is None:
+            return
+        fctx = c.args[0]
+        _check_unmodified(ctx, 'kl/backward/mutates-cotangent-or-saved-tensors',
+                          'Knill-Laflamme backward modified grad_output, the saved code words or an error operator in place',
+                          [('grad_output', c.args[1], c.snap['gout'])] + [(f'saved{i}', t, sn) for i, (t, sn) in enumerate(zip(fctx.saved_tensors, c.snap['saved']))]
+                          + [(lab, m, sn) for (lab, m), sn in zip(_kl_ops(fctx._pyqet_data['op_list']), c.snap['ops'])],
+                          '_KnillLaflammeInnerProductTorchOp.backward/cotangent-unmodified')
+        if not sampled('kl'):
             return
         with torch.enable_grad():
             _post_kl_backward(c)
 
     def _post_kl_backward(c):
-        fctx, gout = c.args[0], c.args[1]
-        q0 = fctx.saved_tensors[0].detach()
+        fctx, gout = c.args[0], c.snap['gout']
+        q0 = c.snap['saved'][0]
         op_list = fctx._pyqet_data['op_list']
         if q0.ndim != 2:
             return
@@ -415,27 +513,45 @@ def install(ctx, numqi):
         scale = 1 + float(ref.abs().max())
         e = float((res[0].to(R.CD) - ref).abs().max())
         _worst(ctx, 'worst_backward_vs_reference_vjp', '_KnillLaflammeInnerProductTorchOp', e / scale)
-        ctx.check(e <= 1e-9 * scale * max(1, len(op_list) / 10), 'kl/backward',
+        eps_in = float(torch.finfo(q0.dtype).eps)  # complex64 code words: the gradient is accumulated in single precision
+        ctx.check(e <= max(1e-9, 1e3 * eps_in) * scale * max(1, len(op_list) / 10), 'kl/backward' + ('/complex64' if eps_in > 1e-10 else ''),
                   '_KnillLaflammeInnerProductTorchOp.backward differs from the vector-Jacobian product of the einsum reference',
                   lambda: {'err': e, 'scale': scale, 'got': res[0], 'expected': ref, 'num_ops': len(op_list),
                            'seq_lengths': [len(s) for s in op_list][:40]}, point='_KnillLaflammeInnerProductTorchOp.backward/vjp')
 
-    ctx.attach(KL, 'backward', post=post_kl_backward, point='_KnillLaflammeInnerProductTorchOp.backward')
+    ctx.attach(KL, 'backward', pre=pre_kl_backward, post=post_kl_backward, point='_KnillLaflammeInnerProductTorchOp.backward')
 
     # ------------------------------------------------------------------ (b3) PSD square roots
     TO = numqi._torch_op
 
-    def snap_A(c):
-        if c.exc is None:
-            c.args[0]._vmon_A = c.args[1].detach().clone()
-            if len(c.args) > 2:
-                c.args[0]._vmon_s = int(c.args[2])
+    def pre_A(c):
+        return {'A': _snap(c.args[1])}
+
+    def snap_A(label):
+        def post(c):
+            if c.exc is None and c.snap is not None:
+                c.args[0]._vmon_A = c.snap['A']  # the input as it was at call time
+                if len(c.args) > 2:
+                    c.args[0]._vmon_s = int(c.args[2])
+                _check_unmodified(ctx, f'{label}/forward/mutates-argument', f'{label}.forward modified its input matrix in place',
+                                  [('matA', c.args[1], c.snap['A'])], f'{label}.forward/arguments-unmodified')
+        return post
+
+    def pre_sq_backward(c):
+        return {'gout': _snap(c.args[1]), 'saved': [_snap(t) for t in c.args[0].saved_tensors]}
 
     def sqrtm_backward_post(label, keybase):
         def post(c):
-            if c.exc is not None or not sampled(label):
+            if c.exc is not None or c.snap is None:
                 return
-            fctx, gout = c.args[0], c.args[1]
+            fctx = c.args[0]
+            _check_unmodified(ctx, keybase + '/mutates-cotangent-or-saved-tensors',
+                              f'{label}.backward modified grad_output or a saved tensor in place',
+                              [('grad_output', c.args[1], c.snap['gout'])] + [(f'saved{i}', t, sn) for i, (t, sn) in enumerate(zip(fctx.saved_tensors, c.snap['saved']))],
+                              f'{label}.backward/cotangent-unmodified')
+            if not sampled(label):
+                return
+            gout = c.snap['gout']
             A = getattr(fctx, '_vmon_A', None)
             s = getattr(fctx, '_vmon_s', 1)
             res = c.result[0] if isinstance(c.result, tuple) and len(c.result) else None
@@ -446,22 +562,27 @@ def install(ctx, numqi):
                 ctx.check(False, keybase + '/shape', 'backward must return a gradient of the input shape', {'A': list(A.shape)})
                 return
             d = A.shape[-1]
-            An, Gn, Rn = [_np(x).reshape(-1, d, d) for x in (A, gout, res)]
+            An, Gn, Rn = [_np(x).reshape(-1, d, d).astype(np.complex128 if x.is_complex() else np.float64) for x in (A, gout, res)]
             if Gn.shape != An.shape:
                 return
-            sq = _np(fctx.saved_tensors[0]).reshape(-1, d)
+            # tolerances scale with the precision of the INPUT dtype (DESIGN section 3); decision threshold 1e-6 / 1e-2
+            EPS = float(torch.finfo(A.dtype).eps)
+            THR = 1e-6 if EPS < 1e-10 else 1e-2
+            if EPS > 1e-10:
+                _count(ctx, 'single_precision_backward_calls', label)
+            sq = _np(c.snap['saved'][0]).reshape(-1, d)
             for b in range(An.shape[0]):
                 a = (An[b] + An[b].conj().T) / 2
                 lam, V = np.linalg.eigh(a)
                 lmax = max(float(lam[-1]), 1e-300)
                 nzero = int((sq[b] == 0).sum())
-                supp = lam > 1e-9 * lmax
+                supp = lam > max(1e-9, 100 * EPS) * lmax
                 if supp.all():
                     ref, _, _ = R.frechet_adjoint(a, Gn[b], lambda x: R.loewner_sqrt_repeat(x, s))
                     cond = lmax / float(lam[0])
                     scale = 1 + float(np.abs(ref).max())
                     tol = 1e3 * EPS * scale * cond**(1.0 if s == 1 else 1.5)
-                    if tol > 1e-6 * scale:
+                    if tol > THR * scale:
                         ctx.inconclusive(f'{label}-backward/ill-conditioned')
                         continue
                     got = Rn[b]
@@ -499,8 +620,8 @@ def install(ctx, numqi):
                     got_s = Vs.conj().T @ got @ Vs
                     scale = 1 + float(np.abs(ref_s).max())
                     # the kernel block holds values ~1/sqrt(eps); its leakage into the projected block is eps*|g|max
-                    tol = 1e3 * EPS * scale * cond**(1.0 if s == 1 else 1.5) + 1e-9 * scale + 1e3 * EPS * float(np.abs(got).max())
-                    if tol > 1e-6 * scale:
+                    tol = 1e3 * EPS * scale * cond**(1.0 if s == 1 else 1.5) + max(1e-9, 1e3 * EPS) * scale + 1e3 * EPS * float(np.abs(got).max())
+                    if tol > THR * scale:
                         ctx.inconclusive(f'{label}-backward/rank-deficient-ill-conditioned')
                         continue
                     e = float(np.abs((got_s + got_s.conj().T) / 2 - (ref_s + ref_s.conj().T) / 2).max())
@@ -511,11 +632,28 @@ def install(ctx, numqi):
                                        'batch_index': b, 'batch': An.shape[0]}, point=f'{label}.backward/support-block')
         return post
 
-    ctx.attach(TO.PSDMatrixSqrtm, 'forward', post=snap_A, point='PSDMatrixSqrtm.forward')
-    ctx.attach(TO.PSDMatrixSqrtm, 'backward', post=sqrtm_backward_post('PSDMatrixSqrtm', 'sqrtm/backward'), point='PSDMatrixSqrtm.backward')
-    ctx.attach(TO._PSDMatrixSqrtmRepeat, 'forward', post=snap_A, point='_PSDMatrixSqrtmRepeat.forward')
-    ctx.attach(TO._PSDMatrixSqrtmRepeat, 'backward', post=sqrtm_backward_post('_PSDMatrixSqrtmRepeat', 'logm/backward'),
+    ctx.attach(TO.PSDMatrixSqrtm, 'forward', pre=pre_A, post=snap_A('PSDMatrixSqrtm'), point='PSDMatrixSqrtm.forward')
+    ctx.attach(TO.PSDMatrixSqrtm, 'backward', pre=pre_sq_backward, post=sqrtm_backward_post('PSDMatrixSqrtm', 'sqrtm/backward'), point='PSDMatrixSqrtm.backward')
+    ctx.attach(TO._PSDMatrixSqrtmRepeat, 'forward', pre=pre_A, post=snap_A('_PSDMatrixSqrtmRepeat'), point='_PSDMatrixSqrtmRepeat.forward')
+    ctx.attach(TO._PSDMatrixSqrtmRepeat, 'backward', pre=pre_sq_backward, post=sqrtm_backward_post('_PSDMatrixSqrtmRepeat', 'logm/backward'),
                point='_PSDMatrixSqrtmRepeat.backward')
+
+    # ------------------------------------------------------------------ (b4) the per-gate adjoint rules must not touch their arguments
+    SS = numqi.sim.state
+
+    def pre_rule(c):
+        return [_snap(x) if isinstance(x, (np.ndarray, torch.Tensor)) else None for x in c.args[:3]]
+
+    def post_rule(name):
+        def post(c):
+            if c.exc is None and c.snap is not None:
+                _check_unmodified(ctx, f'{name}/mutates-argument', f'{name} modified q0_conj, q0_grad or the gate matrix in place '
+                                  '(q0_grad of the last gate is the cotangent buffer owned by autograd)',
+                                  [(lab, x, sn) for lab, x, sn in zip(('q0_conj', 'q0_grad', 'op'), c.args[:3], c.snap)], f'{name}/arguments-unmodified')
+        return post
+
+    for name in ('apply_gate_grad', 'apply_control_n_gate_grad'):
+        ctx.attach(SS, name, pre=pre_rule, post=post_rule(name), point=f'numqi.sim.state.{name}')
     ctx.attach(TO.PSDMatrixLogm, 'forward', point='PSDMatrixLogm.forward')
     return st
 
@@ -723,7 +861,18 @@ def build_circuit(numqi, spec):
     return circ
 
 
-def make_circuit_model(numqi, spec, H, psi0, P_init, train_state):
+def loss_of_state(q, H, kind):
+    """losses used on the final state; 'abs-sum' and 'mean' hand autograd an expanded (stride-0) cotangent."""
+    if kind == 'H':
+        return torch.vdot(q, H @ q).real
+    if kind == 'abs-sum':
+        return torch.abs(q.sum())**2
+    if kind == 'mean':
+        return q.real.mean() + 0.5 * q.imag.sum()
+    raise KeyError(kind)
+
+
+def make_circuit_model(numqi, spec, H, psi0, P_init, train_state, psi_layout='tensor'):
     circ = build_circuit(numqi, spec)
 
     class CircuitModel(torch.nn.Module):
@@ -732,13 +881,26 @@ def make_circuit_model(numqi, spec, H, psi0, P_init, train_state):
             self.circuit_torch = numqi.sim.CircuitTorchWrapper(circ)
             self.P = torch.nn.ParameterDict({k: torch.nn.Parameter(torch.tensor(v, dtype=torch.float64)) for k, v in P_init.items()})
             self.H = torch.tensor(H, dtype=torch.complex128)
+            self.loss_kind = 'H'
+            self.circuit = circ
             if train_state:
                 self.psi_r = torch.nn.Parameter(torch.tensor(psi0.real.copy(), dtype=torch.float64))
                 self.psi_i = torch.nn.Parameter(torch.tensor(psi0.imag.copy(), dtype=torch.float64))
+            elif psi_layout == 'numpy':
+                self.psi0 = np.array(psi0, dtype=np.complex128)
+            elif psi_layout == 'strided':  # every second element of a larger buffer
+                buf = torch.zeros(2 * len(psi0), dtype=torch.complex128)
+                buf[::2] = torch.tensor(psi0, dtype=torch.complex128)
+                self.psi0 = buf[::2]
+            elif psi_layout == 'real':  # real-dtype state (psi0 must be real)
+                self.psi0 = torch.tensor(np.asarray(psi0).real.copy(), dtype=torch.float64)
             else:
                 self.psi0 = torch.tensor(psi0, dtype=torch.complex128)
 
         def forward(self):
+            return loss_of_state(self.state(), self.H, self.loss_kind)
+
+        def state(self):
             if len(self.P):
                 kw = {k: v for k, v in self.P.items() if k != 'pos'}
                 if 'pos' in self.P:
@@ -746,8 +908,7 @@ def make_circuit_model(numqi, spec, H, psi0, P_init, train_state):
                 else:
                     self.circuit_torch.setP(**kw)
             psi = torch.complex(self.psi_r, self.psi_i) if train_state else self.psi0
-            q = self.circuit_torch(psi)
-            return torch.vdot(q, self.H @ q).real
+            return self.circuit_torch(psi)
 
     return CircuitModel()
 
@@ -897,6 +1058,8 @@ def run(ctx, shard):
         run_realistic(ctx, numqi, st, shard)
     elif kind == 'repo-tests':
         run_repo_tests(ctx, numqi, st, shard)
+    elif kind == 'history':
+        run_history(ctx, numqi, st, shard)
     else:
         raise KeyError(kind)
 
@@ -1430,6 +1593,8 @@ def run_realistic(ctx, numqi, st, shard):
                 seed = int(rng.integers(2**31))
                 theta0 = ('uniform', 0, 2 * np.pi) if job in ('circuit', 'varqec') else 'uniform'
                 res = numqi.optimize.minimize(model, theta0=theta0, num_repeat=1, tol=1e-12, maxiter=10, print_every_round=0, seed=seed)
+                if job in ('circuit', 'varqec'):  # the same model object optimised a second time (as tests/test_qec.py does)
+                    numqi.optimize.minimize(model, theta0=theta0, num_repeat=1, tol=1e-12, maxiter=6, print_every_round=0, seed=seed + 1)
             finally:
                 st['closure'] = None
             nev = ctx.hits.get(P_CLOSURE, 0) - before
@@ -1460,3 +1625,541 @@ def run_repo_tests(ctx, numqi, st, shard):
     ctx.case('repo-tests', files, nontrivial=int(rc) == 0)
     if int(rc) != 0:
         ctx.inconclusive('repo-tests/pytest-exit-nonzero')
+
+
+# =================================================================================================== histories / order / layout
+def _params_of(model):
+    named = sorted_named(model)
+    return named, [(k, tuple(v.shape)) for k, v in named]
+
+
+def _grads_now(named):
+    return {k: (np.zeros(tuple(v.shape)) if v.grad is None else _np(v.grad).copy()) for k, v in named}
+
+
+def _zero_grads(named):
+    for _, v in named:
+        v.grad = None
+
+
+def _append_trailing_controls(rng, spec):
+    """end the program with control gates (the cotangent buffer is what the reverse sweep touches first)."""
+    n = spec['n']
+    if n < 2:
+        return
+    for _ in range(int(rng.integers(1, 3))):
+        q = [int(x) for x in rng.permutation(n)[:2]]
+        r = rng.random()
+        if r < 0.35:
+            spec['prog'].append({'g': 'Z', 'tgt': q[:1], 'ctrl': q[1:]})
+        elif r < 0.7:
+            g = ['crx', 'crz', 'cu3'][int(rng.integers(3))]
+            vals = [float(x) for x in rng.uniform(0, 2 * np.pi, size=R.GATES[g][1])]
+            spec['theta'].setdefault(g, []).append(vals)
+            spec['prog'].append({'g': g, 'tgt': q[:1], 'ctrl': q[1:], 'p': ['theta', g, len(spec['theta'][g]) - 1]})
+        else:
+            k = f'm{len(spec["mats"])}'
+            spec['mats'][k] = rand_unitary(rng, 2)
+            spec['prog'].append({'g': 'U', 'tgt': q[:1], 'ctrl': q[1:], 'm': k})
+    spec['features'] = sorted(set(spec['features']) | {'trailing-control-gates'})
+
+
+def _hist_spec(rng, trailing):
+    while True:
+        spec = gen_program(rng, nmin=2, nmax=4, lmax=8)
+        if sum(1 for op in spec['prog'] if op.get('p') and op['p'][0] in ('theta', 'P')) >= 2:
+            break
+    if trailing:
+        _append_trailing_controls(rng, spec)
+    N = 2**spec['n']
+    H = rng.normal(size=(N, N)) + 1j * rng.normal(size=(N, N))
+    H = (H + H.conj().T) / 2
+    psi0 = rng.normal(size=N) + 1j * rng.normal(size=N)
+    psi0 /= np.linalg.norm(psi0)
+    keys = sorted({op['p'][1] for op in spec['prog'] if op.get('p') and op['p'][0] == 'P'})
+    P_init = {k: rng.uniform(0, 2 * np.pi, size=PSHAPES[k]) for k in keys}
+    return spec, H, psi0, P_init
+
+
+def _ref_at(model, spec, H, psi0, train_state, loss_fn=None):
+    named, names_shapes = _params_of(model)
+    values = {k: _np(v).copy() for k, v in named}
+    lref, gref, qref = ref_circuit(spec, values, H, psi0, train_state, loss_fn=loss_fn)
+    return lref, flat_from_dict(names_shapes, gref), qref
+
+
+def hist_circuit(ctx, numqi, st, rep):
+    rng = ctx.rng
+    spec, H, psi0, P_init = _hist_spec(rng, trailing=rep % 3 != 2)
+    train_state = bool(rng.random() < 0.3)
+    layout = 'tensor' if train_state else ['tensor', 'strided', 'real'][rep % 3]
+    if layout == 'real':
+        psi0 = psi0.real / np.linalg.norm(psi0.real)
+    desc = {'kind': 'circuit-history', 'n': spec['n'], 'program': spec['prog'], 'theta': spec['theta'], 'train_state': train_state,
+            'psi_layout': layout, 'features': spec['features']}
+    ctx.set_case(desc)
+    _count(ctx, 'history_circuit_state_layouts', layout)
+    with ctx.guard('circuit-history'):
+        model = make_circuit_model(numqi, spec, H, psi0, P_init, train_state, psi_layout=layout)
+        named, names_shapes = _params_of(model)
+        classes = coordinate_classes(spec, names_shapes)
+        params = [v for _, v in named]
+        Ht = torch.tensor(H, dtype=R.CD)
+        if rep % 5 == 0 and not train_state and layout != 'real':
+            # a numpy initial state is accepted by the forward; torch itself rejects the non-None state gradient the backward
+            # returns for a non-tensor input, so such a call is not differentiable at all: recorded, not judged
+            m2 = make_circuit_model(numqi, spec, H, psi0, P_init, False, psi_layout='numpy')
+            try:
+                m2().backward()
+                ctx.inconclusive('circuit/numpy-initial-state/backward-worked(not compared)')
+            except RuntimeError as e:
+                ctx.inconclusive('circuit/numpy-initial-state/not-differentiable(torch rejects the state gradient of a non-tensor input)'
+                                 if 'was not a Variable' in str(e) else 'circuit/numpy-initial-state/RuntimeError')
+        # --- (1) the same cotangent tensor used for two backward passes
+        q = model.state()
+        v = torch.tensor(rng.normal(size=q.shape) + 1j * rng.normal(size=q.shape), dtype=torch.complex128)
+        v0 = v.clone()
+        g1 = torch.autograd.grad(q, params, grad_outputs=v, retain_graph=True, allow_unused=True)
+        unchanged = bool(torch.equal(v, v0))
+        ctx.check(unchanged, 'circuit/backward/mutates-cotangent-or-saved-tensors',
+                  'out.backward(v): the cotangent tensor v handed to the circuit backward was modified in place',
+                  {'max_change': float((v - v0).abs().max())}, point='history/circuit/cotangent-reuse')
+        g2 = torch.autograd.grad(q, params, grad_outputs=v, retain_graph=False, allow_unused=True)
+        f = lambda gs: np.concatenate([(np.zeros(tuple(p_.shape)) if g is None else _np(g)).reshape(-1) for g, p_ in zip(gs, params)])
+        f1, f2 = f(g1), f(g2)
+        ctx.close(f2, f1, 1e-12 * (1 + np.abs(f1).max()), 'circuit/history/second-vjp-with-same-cotangent-differs',
+                  'two vector-Jacobian products of the same graph with the same cotangent tensor differ', desc, point='history/circuit/cotangent-reuse')
+        _, gref, _ = _ref_at(model, spec, H, psi0, train_state, loss_fn=lambda qq: (v0.conj() * qq).real.sum())
+        cmp_grad(ctx, f1, gref, 'circuit/vjp-vs-autograd', 'circuit state vector-Jacobian product with an explicit cotangent', 'history/circuit/cotangent-reuse',
+                 classes=classes, witness=desc)
+        ctx.case('circuit-history', desc['program'], spec['theta'], P_init, psi0, nontrivial=float(np.abs(f1).max()) > 1e-8,
+                 sample=dict(desc, vjp_max=float(np.abs(f1).max())) if rep < 2 else None)
+        # --- (2) losses built from out.sum() / out.mean(): autograd hands an expanded stride-0 cotangent
+        for kind in ('abs-sum', 'mean'):
+            model.loss_kind = kind
+            _zero_grads(named)
+            loss = model()
+            loss.backward()
+            got = flat_from_dict(names_shapes, _grads_now(named))
+            lref, gref, _ = _ref_at(model, spec, H, psi0, train_state, loss_fn=lambda qq: loss_of_state(qq, Ht, kind))
+            if abs(lref - float(loss.item())) <= 1e-9 * (1 + abs(lref)):
+                cmp_grad(ctx, got, gref, f'circuit/grad-vs-autograd/expanded-cotangent({kind})', f'loss {kind} of the final state', 'history/circuit/expanded-cotangent',
+                         classes=classes, witness=desc)
+            st['closure'] = {'key': f'circuit/grad-vs-fd/expanded-cotangent({kind})', 'point': 'history/circuit/expanded-cotangent', 'classes': classes, 'tag': desc}
+            try:
+                numqi.optimize.hf_model_wrapper(model)(flat_from_dict(names_shapes, {k: _np(v_) for k, v_ in named}))
+            finally:
+                st['closure'] = None
+        model.loss_kind = 'H'
+        # --- (3) the same wrapper differentiated again after in-place parameter updates
+        st['closure'] = {'key': 'circuit/grad-vs-fd/history', 'point': 'history/circuit/updates', 'classes': classes, 'tag': desc}
+        try:
+            hf = numqi.optimize.hf_model_wrapper(model)
+            theta0 = flat_from_dict(names_shapes, {k: _np(v_) for k, v_ in named})
+            f0, grad0 = hf(theta0)
+            for step in range(3):
+                with torch.no_grad():
+                    for p_ in params:
+                        p_.add_(torch.tensor(rng.normal(size=tuple(p_.shape)) * 0.7, dtype=p_.dtype))
+                if step == 0:
+                    model.circuit_torch.fresh_gate_parameter()  # writes the current angles and matrices into the gate objects
+                if step == 1:  # edit a trainable gate object directly: the wrapper's Parameter stays the source of truth
+                    for gate, _ in model.circuit.gate_index_list:
+                        if getattr(gate, 'requires_grad', False) and isinstance(getattr(gate, 'args', None), tuple):
+                            gate.set_args(tuple(float(x) + 0.3 for x in gate.args))
+                            break
+                _zero_grads(named)
+                loss = model()
+                loss.backward()
+                got = flat_from_dict(names_shapes, _grads_now(named))
+                lref, gref, _ = _ref_at(model, spec, H, psi0, train_state)
+                if abs(lref - float(loss.item())) <= 1e-9 * (1 + abs(lref)):
+                    cmp_grad(ctx, got, gref, 'circuit/history/stale-after-inplace-update',
+                             'gradient after an in-place parameter update (same CircuitTorchWrapper) vs reference at the CURRENT values',
+                             'history/circuit/updates', classes=classes, witness=dict(desc, step=step))
+                else:
+                    ctx.inconclusive('circuit-history/reference-forward-mismatch')
+                if step == 2:
+                    hf(flat_from_dict(names_shapes, {k: _np(v_) for k, v_ in named}))
+            f0b, grad0b = hf(theta0)  # the first point again at the end of the history
+            ctx.close(np.concatenate([[f0b], grad0b]), np.concatenate([[f0], grad0]), 1e-12 * (1 + np.abs(grad0).max() + abs(f0)),
+                      'circuit/history/repeat-differs', 'the same parameter point evaluated at the start and at the end of a history gives different (fval, grad)',
+                      desc, point='history/circuit/updates')
+        finally:
+            st['closure'] = None
+
+
+def hist_kl(ctx, numqi, st, rep):
+    rng = ctx.rng
+    kli = numqi.qec.knill_laflamme_inner_product
+    n = int(rng.integers(1, 4))
+    K = int(2**rng.integers(0, 3))
+    ops = rand_op_list(rng, n)
+    variant = ['leaf', 'transposed-view', 'strided-view', 'complex64'][rep % 4]
+    desc = {'kind': 'kl-history', 'n': n, 'K': K, 'layout': variant, 'seq': [[(q, m.shape[0]) for q, m in s_] for s_ in ops]}
+    ctx.set_case(desc)
+    _count(ctx, 'history_kl_layouts', variant)
+    q0 = rng.normal(size=(K, 2**n)) + 1j * rng.normal(size=(K, 2**n))
+    single = variant == 'complex64'
+    tol_rel = 1e3 * float(np.finfo(np.float32).eps) if single else 1e-8
+    with ctx.guard('kl-history'):
+        if variant == 'transposed-view':
+            base = torch.tensor(q0.T.copy(), dtype=torch.complex128, requires_grad=True)
+            view = lambda: base.T
+            base_to_q = lambda g: _np(g).T
+        elif variant == 'strided-view':
+            buf = np.zeros((K, 2 * 2**n), dtype=np.complex128)
+            buf[:, ::2] = q0
+            base = torch.tensor(buf, dtype=torch.complex128, requires_grad=True)
+            view = lambda: base[:, ::2]
+            base_to_q = lambda g: _np(g)[:, ::2]
+        else:
+            base = torch.tensor(q0, dtype=torch.complex64 if single else torch.complex128, requires_grad=True)
+            view = lambda: base
+            base_to_q = lambda g: _np(g)
+        q0v = _np(view()).astype(np.complex128)  # the VALUES numqi is given
+
+        def ref_vjp(qvals, ops_, v_):
+            qt = torch.tensor(qvals, dtype=R.CD, requires_grad=True)
+            out = R.kl_inner_product(qt, ops_, n)
+            return _np(out), _np(torch.autograd.grad(out, qt, grad_outputs=torch.tensor(v_, dtype=R.CD))[0])
+
+        inner = kli(view(), ops)
+        vv = rng.normal(size=tuple(inner.shape)) + 1j * rng.normal(size=tuple(inner.shape))
+        v = torch.tensor(vv, dtype=inner.dtype)
+        v0 = v.clone()
+        g1 = torch.autograd.grad(inner, base, grad_outputs=v, retain_graph=True)[0]
+        ctx.check(bool(torch.equal(v, v0)), 'kl/backward/mutates-cotangent-or-saved-tensors', 'the cotangent tensor handed to the Knill-Laflamme backward was modified in place',
+                  {'max_change': float((v - v0).abs().max())}, point='history/kl/cotangent-reuse')
+        g2 = torch.autograd.grad(inner, base, grad_outputs=v)[0]
+        ctx.close(g2, g1, 1e-12 * (1 + float(g1.abs().max())), 'kl/history/second-vjp-with-same-cotangent-differs',
+                  'two vector-Jacobian products with the same cotangent differ', desc, point='history/kl/cotangent-reuse')
+        fref, gref = ref_vjp(q0v, ops, _np(v0))
+        ctx.case('kl-history', n, K, q0, variant, nontrivial=float(np.abs(gref).max()) > 1e-8)
+        if np.abs(fref - _np(inner)).max() <= (1e-4 if single else 1e-9) * (1 + np.abs(fref).max()):
+            cmp_grad(ctx, base_to_q(g1).reshape(-1), gref.reshape(-1), 'kl/vjp-vs-autograd' + ('/layout-dependent' if variant.endswith('view') else '') + ('/complex64' if single else ''),
+                     f'Knill-Laflamme vector-Jacobian product ({variant} input)', 'history/kl/cotangent-reuse', tol_rel=tol_rel, witness=desc)
+        else:
+            ctx.inconclusive('kl-history/reference-forward-mismatch')
+        # expanded cotangent
+        for kind in ('abs-sum', 'mean'):
+            base.grad = None
+            inner = kli(view(), ops)
+            loss = torch.abs(inner.sum())**2 if kind == 'abs-sum' else inner.real.mean() + 0.5 * inner.imag.sum()
+            loss.backward()
+            qt = torch.tensor(q0v, dtype=R.CD, requires_grad=True)
+            o2 = R.kl_inner_product(qt, ops, n)
+            l2 = torch.abs(o2.sum())**2 if kind == 'abs-sum' else o2.real.mean() + 0.5 * o2.imag.sum()
+            l2.backward()
+            cmp_grad(ctx, base_to_q(base.grad).reshape(-1), _np(qt.grad).reshape(-1), f'kl/grad-vs-autograd/expanded-cotangent({kind})' + ('/complex64' if single else ''),
+                     f'loss {kind} of the inner products', 'history/kl/expanded-cotangent', tol_rel=tol_rel, witness=desc)
+        # the same tensor and the same operator arrays, modified in place, then used again
+        for step in range(2):
+            with torch.no_grad():
+                base.mul_(0.7)
+                base.add_(torch.tensor(rng.normal(size=tuple(base.shape)) + 1j * rng.normal(size=tuple(base.shape)), dtype=base.dtype) * (base != 0))
+            m = ops[0][0][1]
+            m[...] = rng.normal(size=m.shape) + 1j * rng.normal(size=m.shape)
+            base.grad = None
+            inner = kli(view(), ops)
+            (inner * torch.tensor(vv, dtype=inner.dtype).conj()).real.sum().backward()
+            fref, gref = ref_vjp(_np(view()).astype(np.complex128), ops, vv)
+            cmp_grad(ctx, base_to_q(base.grad).reshape(-1), gref.reshape(-1), 'kl/history/stale-after-inplace-update' + ('/complex64' if single else ''),
+                     'Knill-Laflamme gradient after the code-word tensor and an operator array were modified in place vs reference of the CURRENT contents',
+                     'history/kl/updates', tol_rel=tol_rel, witness=dict(desc, step=step))
+
+
+def _psd_values(rng, d, cplx, cls):
+    """a PSD matrix (numpy values) of the given class, lambda_max ~ 1."""
+    if cls == 'full':
+        X = _cplx(rng, (d, d), cplx)
+        return X @ X.conj().T / d + float(rng.uniform(0.05, 0.5)) * np.eye(d)
+    if cls == 'degenerate':
+        U = rand_unitary(rng, d) if cplx else np.linalg.qr(rng.normal(size=(d, d)))[0]
+        vals = rng.uniform(0.2, 1.5, size=max(1, d // 2))
+        lam = np.sort(np.concatenate([vals, rng.choice(vals, size=d - len(vals))]))
+        A = (U * lam) @ U.conj().T
+        return (A + A.conj().T) / 2
+    if cls == 'zero-eig':
+        X = _cplx(rng, (d - 1, d - 1), cplx)
+        A1 = X @ X.conj().T / d + float(rng.uniform(0.05, 0.5)) * np.eye(d - 1)
+        A = np.zeros((d, d), dtype=A1.dtype)
+        k = int(rng.integers(d))
+        idx = [i for i in range(d) if i != k]
+        A[np.ix_(idx, idx)] = A1
+        A[k, k] = -1e-13
+        return A
+    raise KeyError(cls)
+
+
+def _psd_ref_grad(fn, A, G, s, order):
+    """Hermitian part of the gradient w.r.t. the (Hermitian) input, per batch item; zero-eigenvalue items: support block only."""
+    d = A.shape[-1]
+    An, Gn = A.reshape(-1, d, d), G.reshape(-1, d, d)
+    out, masks = [], []
+    for a, g in zip(An, Gn):
+        a = (a + a.conj().T) / 2
+        lam, V = np.linalg.eigh(a)
+        supp = lam > 1e-9 * lam[-1]
+        Vs, ls = V[:, supp], lam[supp]
+        F = R.loewner_sqrt_repeat(ls, 1) if fn == 'sqrtm' else R.loewner_pade_log(ls, s, order)
+        r = Vs @ ((Vs.conj().T @ g @ Vs) * F) @ Vs.conj().T
+        out.append((r + r.conj().T) / 2)
+        masks.append(Vs @ Vs.conj().T)
+    return np.stack(out), np.stack(masks)
+
+
+def _psd_compare(ctx, fn, got, A, G, s, order, key, what, point, tol_rel, witness):
+    d = A.shape[-1]
+    if tuple(got.shape) != tuple(A.shape):
+        ctx.check(False, key + '/shape', f'{what}: gradient shape {tuple(got.shape)} vs input {tuple(A.shape)}', witness, point=point)
+        return
+    ref, Pm = _psd_ref_grad(fn, A, G, s, order)
+    gn = got.reshape(-1, d, d)
+    gh = (gn + gn.conj().transpose(0, 2, 1)) / 2
+    gh = Pm @ gh @ Pm  # only the support block is differentiable for singular items (P = identity otherwise)
+    cmp_grad(ctx, gh.reshape(-1), ref.reshape(-1), key, what, point, tol_rel=tol_rel, witness=witness)
+
+
+def hist_psd(ctx, numqi, st, rep, fn):
+    rng = ctx.rng
+    TO = numqi._torch_op
+    d = int(rng.integers(2, 5))
+    cplx = bool(rng.random() < 0.6)
+    bshape = [(), (3,), (2, 2)][rep % 3]
+    nb = int(np.prod(bshape)) if bshape else 1
+    s, order = ((6, 8) if rep % 2 == 0 else (3, 5)) if fn == 'logm' else (1, 0)
+    pool = ['full', 'degenerate'] + (['zero-eig'] if fn == 'sqrtm' else [])
+    cdt = (torch.complex128 if cplx else torch.float64)
+    mk = lambda: np.stack([_psd_values(rng, d, cplx, pool[int(rng.integers(len(pool)))]) for _ in range(nb)]).reshape(*bshape, d, d)
+    desc = {'kind': f'{fn}-history', 'd': d, 'complex': cplx, 'batch': list(bshape), 'pade': [s, order] if fn == 'logm' else None}
+    ctx.set_case(desc)
+    op = TO.PSDMatrixSqrtm.apply if fn == 'sqrtm' else TO.get_PSDMatrixLogm(s, order)  # the lru_cached shared module instance
+    key = f'{fn}'
+    with ctx.guard(f'{fn}-history'):
+        A0 = mk()
+        A = torch.tensor(A0, dtype=cdt, requires_grad=True)  # ONE tensor object for the whole history
+        F = op(A)
+        Vn = _cplx(rng, tuple(F.shape), cplx)
+        v = torch.tensor(Vn, dtype=F.dtype)
+        v0 = v.clone()
+        g1 = torch.autograd.grad(F, A, grad_outputs=v, retain_graph=True)[0]
+        ctx.check(bool(torch.equal(v, v0)), f'{key}/backward/mutates-cotangent-or-saved-tensors', f'the cotangent tensor handed to the {fn} backward was modified in place',
+                  {'max_change': float((v - v0).abs().max())}, point=f'history/{fn}/cotangent-reuse')
+        g2 = torch.autograd.grad(F, A, grad_outputs=v)[0]
+        ctx.close(g2, g1, 1e-12 * (1 + float(g1.abs().max())), f'{key}/history/second-vjp-with-same-cotangent-differs',
+                  'two vector-Jacobian products with the same cotangent differ', desc, point=f'history/{fn}/cotangent-reuse')
+        ctx.case(f'{fn}-history', d, cplx, bshape, A0, Vn, nontrivial=float(g1.abs().max()) > 1e-8,
+                 sample=dict(desc, grad_max=float(g1.abs().max())) if rep < 1 else None)
+        _psd_compare(ctx, fn, _np(g1), A0, Vn, s, order, f'{key}/vjp-vs-reference', f'{fn} vector-Jacobian product with an explicit cotangent', f'history/{fn}/cotangent-reuse', 1e-7, desc)
+        # expanded cotangent: F.sum() / F.mean()
+        for kind in ('sum', 'mean'):
+            A.grad = None
+            F = op(A)
+            loss = F.sum().real if kind == 'sum' else F.real.mean()
+            loss.backward()
+            G = np.ones(A0.shape) * (1.0 if kind == 'sum' else 1.0 / A0.size)
+            _psd_compare(ctx, fn, _np(A.grad), A0, G.astype(A0.dtype), s, order, f'{key}/grad-vs-reference/expanded-cotangent({kind})',
+                         f'{fn}: loss F.{kind}()', f'history/{fn}/expanded-cotangent', 1e-7, desc)
+        # the same input tensor modified in place and used again; the result of the previous call edited in between
+        first = None
+        for step in range(3):
+            A1 = A0 if step == 2 else mk()
+            with torch.no_grad():
+                A.copy_(torch.tensor(A1, dtype=cdt))
+            Fprev = op(A)
+            Fprev.detach().zero_()  # edit the RESULT of a call in place, then call again
+            A.grad = None
+            F = op(A)
+            with torch.no_grad():
+                Fr = R.funm_eigh(torch.tensor((A1 + np.swapaxes(A1.conj(), -1, -2)) / 2), (lambda x: torch.sqrt(torch.clamp(x, min=0))) if fn == 'sqrtm'
+                                 else (lambda x: R.pade_log_scalar(x, s, order)))
+            ctx.close(F.detach(), Fr, 1e-8 * (1 + float(Fr.abs().max())), f'{key}/history/forward-stale-after-inplace-update',
+                      f'{fn} forward on a tensor modified in place (and after the previous result was edited) differs from the reference of the CURRENT contents',
+                      dict(desc, step=step), point=f'history/{fn}/updates')
+            (F * v0.conj()).real.sum().backward()
+            _psd_compare(ctx, fn, _np(A.grad), A1, Vn, s, order, f'{key}/history/stale-after-inplace-update',
+                         f'{fn} gradient on a tensor modified in place vs reference of the CURRENT contents', f'history/{fn}/updates', 1e-7, dict(desc, step=step))
+            if step == 2:
+                ctx.close(A.grad, g1, 1e-12 * (1 + float(g1.abs().max())), f'{key}/history/repeat-differs',
+                          'the first input evaluated again at the end of the history gives a different gradient', desc, point=f'history/{fn}/updates')
+
+
+def layout_psd(ctx, numqi, st, rep, fn):
+    """non-contiguous / transposed / conjugate-view / single-precision inputs: the result depends on the VALUES only."""
+    rng = ctx.rng
+    TO = numqi._torch_op
+    d = int(rng.integers(2, 5))
+    cplx = bool(rep % 3 != 0)
+    bshape = [(), (2, 3)][rep % 2]
+    nb = int(np.prod(bshape)) if bshape else 1
+    s, order = (6, 8) if fn == 'logm' else (1, 0)
+    op = TO.PSDMatrixSqrtm.apply if fn == 'sqrtm' else TO.PSDMatrixLogm(s, order)
+    cls = 'degenerate' if rep % 4 == 3 else 'full'
+    A0 = np.stack([_psd_values(rng, d, cplx, cls) for _ in range(nb)]).reshape(*bshape, d, d)
+    Vn = _cplx(rng, A0.shape, cplx)
+    cdt = torch.complex128 if cplx else torch.float64
+    variants = {
+        'contiguous': lambda A: A,
+        'transposed-view': lambda A: A.mT.contiguous().mT,                       # same values, column-major strides
+        'conj-transpose-view': lambda A: A.mT.conj(),                           # A^H = A up to rounding; lazy conjugate bit for complex
+        'strided-view': lambda A: torch.stack([A, torch.zeros_like(A)], dim=-1)[..., 0],
+    }
+    if bshape:
+        variants['permuted-batch'] = lambda A: A.permute(1, 0, 2, 3).contiguous().permute(1, 0, 2, 3)
+    desc = {'kind': f'{fn}-layout', 'd': d, 'complex': cplx, 'batch': list(bshape), 'class': cls}
+    ctx.set_case(desc)
+    results = {}
+    for name, tf in variants.items():
+        with ctx.guard(f'{fn}-layout/{name}'):
+            _count(ctx, 'psd_layout_variants', f'{fn}/{name}')
+            A = torch.tensor(A0, dtype=cdt, requires_grad=True)
+            Ain = tf(A)
+            F = op(Ain)
+            # cotangent arriving as a transposed (non-contiguous) view as well
+            loss = (F.mT * torch.tensor(np.swapaxes(Vn, -1, -2), dtype=F.dtype).conj()).real.sum() if name != 'contiguous' else (F * torch.tensor(Vn, dtype=F.dtype).conj()).real.sum()
+            loss.backward()
+            g = _np(A.grad)
+            if name == 'conj-transpose-view':  # d/dA of f(A^H): the Hermitian part is what is determined
+                g = np.swapaxes(g.conj(), -1, -2)
+            results[name] = g
+            _psd_compare(ctx, fn, g, A0, Vn, s, order, f'{fn}/grad-vs-reference/layout({name})', f'{fn} gradient for a {name} input', f'layout/{fn}', 1e-7, desc)
+            if name != 'contiguous' and 'contiguous' in results:
+                gh = lambda x: (x + np.swapaxes(x.conj(), -1, -2)) / 2
+                ctx.close(gh(g), gh(results['contiguous']), 1e-9 * (1 + np.abs(g).max()), f'{fn}/layout-dependent',
+                          f'{fn} gradient (Hermitian part) for a {name} input differs from the contiguous input with the same values', dict(desc, layout=name), point=f'layout/{fn}')
+    ctx.case(f'{fn}-layout', d, cplx, bshape, A0, Vn, nontrivial=True)
+    # single precision, where the Function supports it: tolerances scale with eps(float32); threshold 1e-2
+    with ctx.guard(f'{fn}-float32'):
+        sdt = torch.complex64 if cplx else torch.float32
+        A32v = _np(torch.tensor(A0, dtype=sdt))  # the float32 VALUES
+        A = torch.tensor(A32v, dtype=sdt, requires_grad=True)
+        F = op(A)
+        (F * torch.tensor(Vn, dtype=F.dtype).conj()).real.sum().backward()
+        lam = np.linalg.eigvalsh(A32v.astype(np.complex128 if cplx else np.float64).reshape(-1, d, d))
+        kappa = float((lam[:, -1] / lam[:, 0]).max())
+        tol = 1e3 * float(np.finfo(np.float32).eps) * kappa**(1.0 if fn == 'sqrtm' else 1.5)
+        _count(ctx, 'psd_layout_variants', f'{fn}/{"complex64" if cplx else "float32"}')
+        if A.grad is None or A.grad.dtype != sdt:
+            ctx.check(False, f'{fn}/single-precision/grad-dtype', 'gradient of a single-precision input must exist and have the input dtype',
+                      {'dtype': repr(None if A.grad is None else A.grad.dtype)}, point=f'dtype/{fn}')
+        elif tol > 1e-2:
+            ctx.inconclusive(f'{fn}/single-precision-ill-conditioned')
+        else:
+            _psd_compare(ctx, fn, _np(A.grad).astype(A0.dtype), A32v.astype(A0.dtype), Vn, s, order, f'{fn}/grad-vs-reference/single-precision',
+                         f'{fn} gradient for a {"complex64" if cplx else "float32"} input', f'dtype/{fn}', tol, desc)
+
+
+def order_psd(ctx, numqi, st, fn):
+    """call order inside ONE process: mixed-rank batch before/after full-rank batches and un-batched calls; batched == per item."""
+    rng = ctx.rng
+    TO = numqi._torch_op
+    d, cplx = 3, True
+    s, order = (6, 8) if fn == 'logm' else (1, 0)
+    op = TO.PSDMatrixSqrtm.apply if fn == 'sqrtm' else TO.get_PSDMatrixLogm(s, order)
+    mixed_cls = ['full', 'zero-eig', 'degenerate'] if fn == 'sqrtm' else ['full', 'degenerate', 'full']
+    configs = {
+        'mixed-batch': np.stack([_psd_values(rng, d, cplx, c) for c in mixed_cls]),
+        'full-batch': np.stack([_psd_values(rng, d, cplx, 'full') for _ in range(3)]),
+        'single-full': _psd_values(rng, d, cplx, 'full'),
+        'single-special': _psd_values(rng, d, cplx, mixed_cls[1]),
+        'batch-2x2': np.stack([_psd_values(rng, d, cplx, 'full') for _ in range(4)]).reshape(2, 2, d, d),
+    }
+    V = {k: _cplx(rng, v.shape, cplx) for k, v in configs.items()}
+
+    def grad_of(name, A0=None, Vn=None):
+        A0 = configs[name] if A0 is None else A0
+        Vn = V[name] if Vn is None else Vn
+        A = torch.tensor(A0, dtype=torch.complex128, requires_grad=True)
+        (op(A) * torch.tensor(Vn).conj()).real.sum().backward()
+        return _np(A.grad)
+
+    names = list(configs)
+    orders = [names, names[::-1], [names[i] for i in (2, 0, 4, 1, 3)]]
+    first = {}
+    for oi, seq in enumerate(orders):
+        for name in seq + [seq[0]]:  # one configuration repeated at the end
+            ctx.set_case({'kind': f'{fn}-order', 'order': seq, 'config': name})
+            with ctx.guard(f'{fn}-order'):
+                g = grad_of(name)
+                _psd_compare(ctx, fn, g, configs[name], V[name], s, order, f'{fn}/grad-vs-reference/call-order', f'{fn} gradient of configuration {name} in call order {oi}',
+                             f'order/{fn}', 1e-7, {'order': seq, 'config': name})
+                if name in first:
+                    Pm = _psd_ref_grad(fn, configs[name], V[name], s, order)[1].reshape(g.shape)
+                    ctx.close(Pm @ g @ Pm, Pm @ first[name] @ Pm, 1e-10 * (1 + np.abs(first[name]).max()), f'{fn}/history/order-dependent',
+                              f'{fn} gradient of the same input depends on which calls were made before it', {'order': seq, 'config': name}, point=f'order/{fn}')
+                else:
+                    first[name] = g
+                ctx.case(f'{fn}-order', oi, name, configs[name], nontrivial=True)
+    # batched call == the same items one by one (relational clause)
+    with ctx.guard(f'{fn}-batched-vs-single'):
+        gb = first['mixed-batch']
+        for i in range(3):
+            gi = grad_of(None, configs['mixed-batch'][i], V['mixed-batch'][i])
+            Pm = _psd_ref_grad(fn, configs['mixed-batch'][i], V['mixed-batch'][i], s, order)[1][0]
+            ctx.close(Pm @ gb[i] @ Pm, Pm @ gi @ Pm, 1e-9 * (1 + np.abs(gi).max()), f'{fn}/batched-vs-unbatched',
+                      f'{fn} gradient of a batch member differs from the gradient of the same matrix processed alone',
+                      {'member': i, 'class': mixed_cls[i]}, point=f'order/{fn}')
+
+
+def order_circuit(ctx, numqi, st):
+    """the same programs differentiated in different orders (qubit counts 4..1 and back) in ONE process, one repeated at the end."""
+    rng = ctx.rng
+    items = []
+    for n in (4, 1, 3, 2):
+        while True:
+            spec = gen_program(rng, nmin=n, nmax=n, lmax=8)
+            if spec['n'] == n and any(op.get('p') and op['p'][0] == 'theta' for op in spec['prog']):
+                break
+        items.append(_hist_spec_from(rng, spec))
+    first = {}
+    for oi, seq in enumerate([[0, 1, 2, 3], [3, 2, 1, 0], [1, 3, 0, 2]]):
+        for i in seq + [seq[0]]:
+            spec, H, psi0, P_init = items[i]
+            desc = {'kind': 'circuit-order', 'order': seq, 'item': i, 'n': spec['n'], 'program': spec['prog']}
+            ctx.set_case(desc)
+            with ctx.guard('circuit-order'):
+                model = make_circuit_model(numqi, spec, H, psi0, P_init, True)
+                named, names_shapes = _params_of(model)
+                loss = model()
+                loss.backward()
+                got = flat_from_dict(names_shapes, _grads_now(named))
+                lref, gref, _ = _ref_at(model, spec, H, psi0, True)
+                cmp_grad(ctx, got, gref, 'circuit/grad-vs-autograd/call-order', 'circuit gradient in a varied call order', 'order/circuit',
+                         classes=coordinate_classes(spec, names_shapes), witness=desc)
+                if i in first:
+                    ctx.close(got, first[i], 1e-12 * (1 + np.abs(got).max()), 'circuit/history/order-dependent',
+                              'circuit gradient of the same program depends on which circuits were differentiated before it', desc, point='order/circuit')
+                else:
+                    first[i] = got
+                ctx.case('circuit-order', oi, i, spec['prog'], nontrivial=float(np.abs(got).max()) > 1e-8)
+
+
+def _hist_spec_from(rng, spec):
+    N = 2**spec['n']
+    H = rng.normal(size=(N, N)) + 1j * rng.normal(size=(N, N))
+    H = (H + H.conj().T) / 2
+    psi0 = rng.normal(size=N) + 1j * rng.normal(size=N)
+    psi0 /= np.linalg.norm(psi0)
+    keys = sorted({op['p'][1] for op in spec['prog'] if op.get('p') and op['p'][0] == 'P'})
+    return spec, H, psi0, {k: rng.uniform(0, 2 * np.pi, size=PSHAPES[k]) for k in keys}
+
+
+def run_history(ctx, numqi, st, shard):
+    ctx.workload('corner', 1)
+    what = shard.get('what', 'all')
+    for rep in range(shard['n']):
+        if what in ('all', 'circuit'):
+            ctx.workload('random')
+            hist_circuit(ctx, numqi, st, rep)
+        if what in ('all', 'matrix'):
+            ctx.workload('random', 5)
+            hist_kl(ctx, numqi, st, rep)
+            for fn in ('sqrtm', 'logm'):
+                hist_psd(ctx, numqi, st, rep, fn)
+                layout_psd(ctx, numqi, st, rep, fn)
+    if what in ('all', 'matrix'):
+        for fn in ('sqrtm', 'logm'):
+            order_psd(ctx, numqi, st, fn)
+    if what in ('all', 'circuit'):
+        order_circuit(ctx, numqi, st)
